@@ -14,6 +14,10 @@
 //!       ["park0",th,secs,hex]    shared only, needs hook H1b: parked at yield point 0 (should_rollover said Some,
 //!                                advance_date not yet attempted) if it gets there
 //!       ["rel",th]               releases a parked thread and waits for its write to finish
+//!       ["w2",th,secs,hex,secs2] shared only: a complete write (as "w") during which the clock MOVES: it reads secs when
+//!                                make_writer starts and secs2 from yield point 1 on (the yield callback, running on the
+//!                                calling thread between advance_date and refresh_writer, sets the thread clock) - a wall
+//!                                clock stepped back across the boundary, or a long wait for the file lock
 //!       ["race",[th..],secs,[hex..]]  shared only: the threads are released together by a barrier
 //! Every file creation is preceded by a sleep of gap_ms AND a barrier that reads the created() stamp of a probe file back until it is
 //! strictly newer than every entry of the case directory (a sleep alone is not enough under load); stamps are re-checked after every
@@ -45,6 +49,8 @@ struct ParkState {
 static PARK: Mutex<ParkState> = Mutex::new(ParkState { want: [0; MAXT], released: [false; MAXT] });
 static CV: Condvar = Condvar::new();
 static YIELDS: AtomicU64 = AtomicU64::new(0);
+/// per worker thread: the reading the clock is switched to when the thread passes yield point 1 (op "w2")
+static YCLOCK: Mutex<[Option<i64>; MAXT]> = Mutex::new([None; MAXT]);
 static EVENTS: Mutex<Option<mpsc::Sender<Event>>> = Mutex::new(None);
 thread_local! { static TH: Cell<usize> = Cell::new(usize::MAX); }
 
@@ -75,6 +81,11 @@ fn yield_cb(id: u32) {
     let th = TH.with(|c| c.get());
     if th >= MAXT {
         return;
+    }
+    if id == 1 {
+        if let Some(t2) = YCLOCK.lock().unwrap()[th].take() {
+            __verif::set_thread_clock(Some((t2, 0)));
+        }
     }
     let mut g = PARK.lock().unwrap();
     if (id == 1 && g.want[th] == 1) || (id == 0 && g.want[th] == 2) {
@@ -367,9 +378,11 @@ fn run_life(case: &Value, dir: &Path, gap: Duration) -> Value {
         let mut res = Vec::new();
         let mut parked = false;
         match kind {
-            "w" | "park" | "park0" => {
+            "w" | "park" | "park0" | "w2" => {
                 let th = op[1].as_u64().unwrap() as usize % nth;
-                if kind != "w" {
+                if kind == "w2" {
+                    YCLOCK.lock().unwrap()[th] = op[4].as_i64();
+                } else if kind != "w" {
                     PARK.lock().unwrap().want[th] = if kind == "park" { 1 } else { 2 };
                 }
                 txs[th].send(Cmd::Write { t: op[2].as_i64().unwrap(), buf: unhex(op[3].as_str().unwrap()), barrier: None }).unwrap();
@@ -384,6 +397,7 @@ fn run_life(case: &Value, dir: &Path, gap: Duration) -> Value {
                     }
                     Err(_) => fatal = Some(format!("timeout in op {}", op)),
                 }
+                YCLOCK.lock().unwrap()[th] = None;
             }
             "rel" => {
                 let th = op[1].as_u64().unwrap() as usize % nth;
